@@ -167,11 +167,18 @@ func classifyProv(st string) string {
 		return ".clearHandler"
 	}
 	if lr := strings.SplitN(st, " = ", 2); len(lr) == 2 && pureRef(lr[0]) && !cpuStateFields[lastSel(lr[0])] {
+		// X = helper(...) with a package-local helper that only does placeholder bookkeeping
+		if i := strings.Index(lr[1], "("); i > 0 && pureRef(lr[1][:i]) && bookkeepingHelpers[lr[1][:i]] {
+			return ".newPlaceholder"
+		}
 		switch {
 		case strings.HasPrefix(lr[1], "memory.NewPlaceholderWrapper("):
 			return ".newPlaceholder"
 		case lr[1] == "nil" || lr[1] == "<zero>":
 			return ".noPlaceholder"
+		case lr[1] == "&<composite>" || lr[1] == "<composite>":
+			// building the provider object itself
+			return ".usePlaceholder"
 		case pureRef(lr[1]) && lastSel(lr[0]) == "Mem" && lastSel(lr[1]) == "Wrapper":
 			return ".wrapMem"
 		case pureRef(lr[1]) && lastSel(lr[0]) != "Mem":
@@ -180,6 +187,32 @@ func classifyProv(st string) string {
 		}
 	}
 	return fmt.Sprintf(".unknown %q", st)
+}
+
+// bookkeepingHelpers: functions of package caseexec whose body touches neither the CPU state nor the snapshot, the
+// statistics or the trap handler: calling one only arranges which wrapper object is in front of the memory
+var bookkeepingHelpers = map[string]bool{}
+
+func collectBookkeepingHelpers(m map[methodKey]*ast.FuncDecl) {
+	for k, fd := range m {
+		if k.recv != "" || fd.Body == nil {
+			continue
+		}
+		ok := true
+		for _, st := range flatStmts(fd.Body) {
+			for _, bad := range []string{".Reset(", ".RestoreSnapshot(", ".TakeSnapshot(", ".SetWriteFunc(", ".ClearStatistics(", ".Store(", ".Load("} {
+				if strings.Contains(st, bad) {
+					ok = false
+				}
+			}
+			if lr := strings.SplitN(st, " = ", 2); len(lr) == 2 && cpuStateFields[lastSel(lr[0])] {
+				ok = false
+			}
+		}
+		if ok {
+			bookkeepingHelpers[k.name] = true
+		}
+	}
 }
 
 func leanSteps(stmts []string, classify func(string) string) string {
@@ -197,6 +230,7 @@ func doFlow(repo, outDir string) {
 	ok := true
 	cpuM := methodsOf(parseDir(filepath.Join(repo, "cpu")))
 	ceM := methodsOf(parseDir(filepath.Join(repo, "caseexec")))
+	collectBookkeepingHelpers(ceM)
 	if fd, found := cpuM[methodKey{"CPU6502", "Reset"}]; found {
 		fmt.Fprintf(&b, "/-- the statements of cpu.CPU6502.Reset, in order -/\ndef resetSteps : List ResetStep := %s\n\n", leanSteps(flatStmts(fd.Body), classifyReset))
 	} else {
